@@ -857,6 +857,30 @@ Proof.
   exists (fst (path k)), (snd (path k)). split. exact Hi1. split. exact Hi2. exact Hv.
 Qed.
 
+Lemma contributes_nothing_in_sight : forall nr nc d m (path : Z * Z -> Z -> Z -> Z -> Z * Z) r c dirs nb,
+  (forall d0 i, In d0 dirs -> 1 <= i -> inside nr nc (path d0 r c i) ->
+     spec_valid (m (fst (path d0 r c i)) (snd (path d0 r c i))) = false) ->
+  Forall2 (fun d0 o => contributes nr nc d m (path d0 r c) o) dirs nb -> finite nb = [].
+Proof.
+  intros nr nc d m path r c dirs nb NS F. induction F as [|d0 o dirs nb Hco F IH]. reflexivity.
+  cbn [finite flat_map]. change (flat_map _ nb) with (finite nb).
+  rewrite IH by (intros d1 i Hd; apply NS; right; exact Hd).
+  destruct Hco as [(k & (Hk & Hin & Hv & _) & _) | (_ & ->)]; [|reflexivity]. exfalso.
+  specialize (Hin k ltac:(lia)). unfold valid_at in Hv.
+  rewrite (NS d0 k) in Hv. discriminate. left. reflexivity. exact Hk. exact Hin.
+Qed.
+
+Lemma neighbour_dir : forall r c r' c', r - 1 <= r' <= r + 1 -> c - 1 <= c' <= c + 1 -> (r', c') <> (r, c) ->
+  exists d, In d dirs8_rc /\ straight d r c 1 = (r', c').
+Proof.
+  intros r c r' c' Hr Hc Hne. exists (r' - r, c' - c). split.
+  - assert (Er : r' - r = -1 \/ r' - r = 0 \/ r' - r = 1) by lia.
+    assert (Ec : c' - c = -1 \/ c' - c = 0 \/ c' - c = 1) by lia.
+    destruct Er as [Er|[Er|Er]]; destruct Ec as [Ec|[Ec|Ec]]; rewrite Er, Ec; unfold dirs8_rc; cbn [In]; try tauto.
+    exfalso. apply Hne. f_equal; lia.
+  - unfold straight. cbn [fst snd]. f_equal; lia.
+Qed.
+
 Section McClauses.
   Variables nr nc off : Z.
   Variable disp : Z -> Z -> option Q.
@@ -980,6 +1004,49 @@ Section McClauses.
     - destruct (contributes_some_valid _ _ _ _ _ _ _ _ _ Fnb Hne) as (r1 & c1 & Hr1 & Hc1 & Hv1).
       exact (mc_pass1_valid_source d1 m1 P1 r1 c1 Hr1 Hc1 Hv1).
     - rewrite Em' in N9. congruence.
+  Qed.
+
+  (* nothing valid (nor fillable) in sight along the 16 directions: the pixel is left as it was *)
+  Lemma mc_nothing_in_sight : forall r c, 0 <= r < nr -> 0 <= c < nc -> remarked r c = false ->
+    nothing_in_sight halfstep dirs16_rc nr nc mask r c ->
+    disp' r c = disp r c /\ mask' r c = mask r c.
+  Proof.
+    intros r c Hr Hc Hrm NS. destruct S as (d1 & m1 & m2 & P1 & P2 & B).
+    pose proof (P1 r c Hr Hc) as Q1. pose proof (P2 r c Hr Hc) as Q2. specialize (B r c Hr Hc).
+    unfold remarked in Hrm. rewrite Hrm in B. rewrite B.
+    assert (Q2' : forall x, Z.quot (2 * x) 2 = x) by (intro x; rewrite Z.mul_comm; apply Z.quot_mul; lia).
+    assert (Qm2 : forall x, Z.quot (-2 * x) 2 = - x)
+      by (intro x; replace (-2 * x) with ((- x) * 2) by lia; apply Z.quot_mul; lia).
+    (* pass 1 leaves (r,c) alone *)
+    assert (U1 : d1 r c = disp r c /\ m1 r c = mask r c).
+    { destruct Q1 as [[_ U] | [_ [(k & Hf & _) | [(_ & k & Hf & _) | (_ & _ & U)]]]]; try exact U; exfalso.
+      - destruct Hf as (Hk & Hin & Hv & _). specialize (Hin k ltac:(lia)).
+        assert (E : leftwards r c k = halfstep (0, -2) r c k).
+        { unfold leftwards, halfstep. cbn [fst snd]. rewrite Qm2. cbn. f_equal; lia. }
+        rewrite E in Hin, Hv. destruct (NS (0, -2) k) as [D _]; try assumption.
+        unfold dirs16_rc. cbn. tauto. unfold valid_at in Hv. congruence.
+      - destruct Hf as (Hk & Hin & Hv & _). specialize (Hin k ltac:(lia)).
+        assert (E : rightwards r c k = halfstep (0, 2) r c k).
+        { unfold rightwards, halfstep. cbn [fst snd]. rewrite Q2'. cbn. f_equal; lia. }
+        rewrite E in Hin, Hv. destruct (NS (0, 2) k) as [D _]; try assumption.
+        unfold dirs16_rc. cbn. tauto. unfold valid_at in Hv. congruence. }
+    destruct U1 as [Ed Em].
+    (* pass 1 leaves dead pixels dead *)
+    assert (DD : forall p, inside nr nc p -> dead (mask (fst p) (snd p)) -> spec_valid (m1 (fst p) (snd p)) = false).
+    { intros p [Hp1 Hp2] [Dv Df]. apply flagged_false in Df. destruct Df as [F8 _].
+      destruct (P1 _ _ Hp1 Hp2) as [[_ [_ Emp]] | [E8 _]]; [|congruence]. rewrite Emp. exact Dv. }
+    destruct Q2 as [[_ [Ed' Em']] | [_ (nb & Fnb & [(Hne & _) | (_ & [Ed' Em'])])]].
+    - rewrite Ed', Em', Ed, Em. split; reflexivity.
+    - exfalso. apply Hne. clear Hne. revert NS Fnb. generalize dirs16_rc. intros dirs NS Fnb.
+      induction Fnb as [|d0 o dirs nb Hco F IH]. reflexivity.
+      cbn [finite flat_map]. change (flat_map _ nb) with (finite nb).
+      rewrite IH by (intros d i Hd; apply NS; right; exact Hd).
+      destruct Hco as [(k & (Hk & Hin & Hv & _) & _) | (_ & ->)]; [|reflexivity]. exfalso.
+      specialize (Hin k ltac:(lia)).
+      assert (X : spec_valid (m1 (fst (halfstep d0 r c k)) (snd (halfstep d0 r c k))) = false).
+      { apply DD. exact Hin. apply NS. left. reflexivity. exact Hk. exact Hin. }
+      unfold valid_at in Hv. congruence.
+    - rewrite Ed', Em', Ed, Em. split; reflexivity.
   Qed.
 
   (* a map without any valid pixel: nothing is filled, nothing changes *)
@@ -1116,6 +1183,41 @@ Section SgmClauses.
       destruct (contributes_some_valid _ _ _ _ _ _ _ _ _ Fnb Hne) as (r1 & c1 & Hr1 & Hc1 & Hv1).
       exact (sgm_pass1_valid_source d1 m1 P1 r1 c1 Hr1 Hc1 Hv1).
     - rewrite Em' in N8. congruence.
+  Qed.
+
+  (* nothing valid (nor fillable) in sight along the 8 directions: the pixel is left as it was *)
+  Lemma sgm_nothing_in_sight : forall r c, 0 <= r < nr -> 0 <= c < nc ->
+    Z.testbit (mask r c) 8 && Z.testbit (mask r c) 9 = false ->
+    nothing_in_sight straight dirs8_rc nr nc mask r c ->
+    disp' r c = disp r c /\ mask' r c = mask r c.
+  Proof.
+    intros r c Hr Hc NBp NS. destruct S as (d1 & m1 & P1 & P2).
+    pose proof (P1 r c Hr Hc) as Q1. pose proof (P2 r c Hr Hc) as Q2.
+    assert (NS0 : forall d0 i, In d0 dirs8_rc -> 1 <= i -> inside nr nc (straight d0 r c i) ->
+              spec_valid (mask (fst (straight d0 r c i)) (snd (straight d0 r c i))) = false).
+    { intros d0 i Hd Hi Hin. apply (NS d0 i Hd Hi Hin). }
+    assert (NS1 : forall d0 i, In d0 dirs8_rc -> 1 <= i -> inside nr nc (straight d0 r c i) ->
+              spec_valid (m1 (fst (straight d0 r c i)) (snd (straight d0 r c i))) = false).
+    { intros d0 i Hd Hi Hin. destruct (NS d0 i Hd Hi Hin) as [Dv Df]. apply flagged_false in Df.
+      destruct Df as [_ F9]. destruct Hin as [Hp1 Hp2].
+      destruct (P1 _ _ Hp1 Hp2) as [[_ [_ Emp]] | [[E9 _] | [E9 _]]]; congruence. }
+    assert (U1 : d1 r c = disp r c /\ m1 r c = mask r c).
+    { destruct Q1 as [[_ U] | [(E9 & T & _) | (_ & _ & nb & Fnb & [(Hne & _) | (_ & U)])]]; try exact U; exfalso.
+      - destruct T as (r' & c' & Hin & Hr' & Hc' & B8).
+        destruct (Z.eq_dec r' r) as [->|Nr]; [destruct (Z.eq_dec c' c) as [->|Ncc]|].
+        + rewrite B8, E9 in NBp. discriminate.
+        + destruct (neighbour_dir r c r c' Hr' Hc') as (d & Hd & Ed). congruence.
+          rewrite <- Ed in Hin. destruct (NS d 1 Hd ltac:(lia) Hin) as [_ Df]. rewrite Ed in Df. cbn [fst snd] in Df.
+          apply flagged_false in Df. destruct Df. congruence.
+        + destruct (neighbour_dir r c r' c' Hr' Hc') as (d & Hd & Ed). congruence.
+          rewrite <- Ed in Hin. destruct (NS d 1 Hd ltac:(lia) Hin) as [_ Df]. rewrite Ed in Df. cbn [fst snd] in Df.
+          apply flagged_false in Df. destruct Df. congruence.
+      - apply Hne. exact (contributes_nothing_in_sight _ _ _ _ _ _ _ _ _ NS0 Fnb). }
+    destruct U1 as [Ed Em].
+    destruct Q2 as [[_ [Ed' Em']] | [_ (nb & Fnb & [(Hl & _) | (_ & [Ed' Em'])])]].
+    - rewrite Ed', Em', Ed, Em. split; reflexivity.
+    - exfalso. rewrite (contributes_nothing_in_sight _ _ _ _ _ _ _ _ _ NS1 Fnb) in Hl. cbn in Hl. lia.
+    - rewrite Ed', Em', Ed, Em. split; reflexivity.
   Qed.
 
   Lemma sgm_no_valid_pixel : (forall r c, 0 <= r < nr -> 0 <= c < nc -> spec_valid (mask r c) = false) ->
@@ -1288,6 +1390,19 @@ Section OnModel.
     intros r c Hr Hc Hrm Hf. destruct m; cbn [remarked_by] in Hrm.
     - exact (mc_filled_needs_valid _ _ _ _ _ _ _ (interp_mc_meets_spec nr nc off disp mask) r c Hr Hc Hrm Hf).
     - exact (sgm_filled_needs_valid _ _ _ _ _ _ (interp_sgm_meets_spec nr nc off disp mask NB) r c Hr Hc Hf).
+  Qed.
+
+  (* nothing valid nor fillable along the scan directions of the method: the pixel is left as it was *)
+  Lemma interp_nothing_in_sight : forall r c, 0 <= r < nr -> 0 <= c < nc -> remarked_by m nr nc off r c = false ->
+    match m with
+    | McCnn => nothing_in_sight halfstep dirs16_rc nr nc mask r c
+    | Sgm => nothing_in_sight straight dirs8_rc nr nc mask r c
+    end ->
+    disp' r c = disp r c /\ mask' r c = mask r c.
+  Proof.
+    intros r c Hr Hc Hrm NS. destruct m; cbn [remarked_by] in Hrm.
+    - exact (mc_nothing_in_sight _ _ _ _ _ _ _ (interp_mc_meets_spec nr nc off disp mask) r c Hr Hc Hrm NS).
+    - exact (sgm_nothing_in_sight _ _ _ _ _ _ (interp_sgm_meets_spec nr nc off disp mask NB) r c Hr Hc (NB r c Hr Hc) NS).
   Qed.
 
   (* no valid pixel at all: no disparity changes, no flagged pixel loses its flag *)
